@@ -4,10 +4,10 @@ package bitcoin
 
 // Verification hook (build tag verif): re-exports existing identifiers only.
 
-// VerifSignaturePlaceholderLength is the byte length of the signature
+// VerifC30SignaturePlaceholderLength is the byte length of the signature
 // placeholder used by the TransactionSizeEstimator.
-func VerifSignaturePlaceholderLength() int { return len(signaturePlaceholder) }
+func VerifC30SignaturePlaceholderLength() int { return len(signaturePlaceholder) }
 
-// VerifPublicKeyPlaceholderLength is the byte length of the public key
+// VerifC30PublicKeyPlaceholderLength is the byte length of the public key
 // placeholder used by the TransactionSizeEstimator.
-func VerifPublicKeyPlaceholderLength() int { return len(publicKeyPlaceholder) }
+func VerifC30PublicKeyPlaceholderLength() int { return len(publicKeyPlaceholder) }
